@@ -9,6 +9,9 @@ CONSTANTS
   Units = {2, 4, 8}
   EmitMod = 1
   EmitRem = 0
-  Fixed = {"AsyncColumn", "DedentCont", "LambdaInClass"}
+  Fixed = {"AsyncColumn", "DedentCont", "LambdaInClass", "CompWhile"}
+  MaxNest = 0
+  NestKinds = {"list", "set", "dict", "gen", "lam"}
+  Plain = FALSE
 INVARIANT DesignMeetsReference
 CHECK_DEADLOCK FALSE
